@@ -51,6 +51,12 @@ Check hash_repr_indep : forall r1 r2,
   hash r1 = spec_hash (units r1) /\ (hash r1 = hash r2 <-> units r1 = units r2).
 Print Assumptions hash_repr_indep.
 
+(* Hash is consistent with Eq whatever the two representations (HashMap/property-key contract), and conversely *)
+Theorem hash_eq_consistent : forall r1 r2, eq r1 r2 = true <-> hash r1 = hash r2.
+Proof. exact hash_eq_consistent_lemma. Qed.
+Check hash_eq_consistent : forall r1 r2, eq r1 r2 = true <-> hash r1 = hash r2.
+Print Assumptions hash_eq_consistent.
+
 (* starts_with / ends_with are prefix / suffix tests on the code units *)
 Theorem affix_repr_indep : forall s n,
   starts_with s n = spec_starts_with (units s) (units n) /\
